@@ -44,6 +44,8 @@ fn table() -> Vec<Entry> {
         entry!("C10", c10, "exploration"),
         entry!("C11", c11, "exploration"),
         entry!("C13", c13, "exploration"),
+        entry!("C14", c14, "exploration"),
+        entry!("C15", c15, "exploration"),
     ]
 }
 
